@@ -19,7 +19,7 @@ FOREIGN_BASE = 1000000  # ids >= FOREIGN_BASE never denote an interned (declared
 VALID = z3.Function("valid_u32", z3.IntSort(), z3.BoolSort())
 ENVSET = z3.Function("env_set", z3.IntSort(), z3.BoolSort())
 ENVVAL = z3.Function("env_val", z3.IntSort(), z3.IntSort())
-GUARD = z3.Function("guard_ok", z3.IntSort(), z3.BoolSort())
+U32OF = z3.Function("u32_of", z3.IntSort(), z3.BitVecSort(32))  # numeric value of a valid text
 
 
 def is_u32_text(s):
@@ -28,7 +28,10 @@ def is_u32_text(s):
 
 
 def intern_hook(ex, s, i):
-    ex.add_axiom(VALID(z3.IntVal(i)) == z3.BoolVal(is_u32_text(s)))
+    ok = is_u32_text(s)
+    ex.add_axiom(VALID(z3.IntVal(i)) == z3.BoolVal(ok))
+    if ok:
+        ex.add_axiom(U32OF(z3.IntVal(i)) == z3.BitVecVal(int(s), 32))
 
 
 # ------------------------------------------------------------------------------------------------
@@ -75,7 +78,7 @@ def m_parse_os_str(ex, c, args):
     os = rda(args[0])
     t = ex.str_term(os)
     if ex.branch(VALID(t), "valid"):
-        return OK(Opaque("u32", (os,)))
+        return OK(U32OF(t))
     return ERR(Opaque("parse_err", (os,)))
 
 
@@ -382,6 +385,7 @@ class Concretizer:
         self.ex = ex
         self.m = model
         self.fresh = {}
+        self.used = set()
         self.n = 0
 
     def ival(self, t):
@@ -398,7 +402,15 @@ class Concretizer:
         if s is None:
             ok = z3.is_true(self.m.eval(VALID(z3.IntVal(i)), model_completion=True))
             self.n += 1
-            s = str(700 + self.n) if ok else "x%dq" % self.n
+            if ok:
+                # decimal text of the model's numeric value; leading zeros keep distinct ids distinct
+                num = self.m.eval(U32OF(z3.IntVal(i)), model_completion=True).as_long()
+                s = str(num)
+                while s in self.used or s in self.ex.strtab:
+                    s = "0" + s
+            else:
+                s = "x%dq" % self.n
+            self.used.add(s)
             self.fresh[i] = s
         return s
 
